@@ -6,22 +6,33 @@ import Drv
   know is answered with `bad-op` (never defaulted).
 -/
 
-def dispatch (line : String) : String :=
+structure DState where
+  topic : Drv.Topic.St := {}
+
+def dispatch (st : DState) (line : String) : DState × String :=
   let toks := (line.splitOn " ").filter (· ≠ "")
   match toks with
-  | "codec" :: rest => (Drv.Codec.handle rest).getD "bad-op"
-  | _ => "bad-op"
+  | "codec" :: rest => (st, (Drv.Codec.handle rest).getD "bad-op")
+  | "tree" :: rest =>
+    match Drv.Topic.handle st.topic rest with
+    | some (t, out) => ({ st with topic := t }, out)
+    | none => (st, "bad-op")
+  | _ => (st, "bad-op")
 
-partial def loop (hin : IO.FS.Stream) (hout : IO.FS.Stream) : IO Unit := do
+partial def loop (hin : IO.FS.Stream) (hout : IO.FS.Stream) (st : DState) : IO Unit := do
   let line ← hin.getLine
   if line.isEmpty then return ()
   let l := String.ofList (line.toList.filter (fun c => c != (Char.ofNat 10) && c != (Char.ofNat 13)))
-  if l.isEmpty || l.startsWith "#" then hout.putStrLn l
-  else hout.putStrLn (dispatch l)
-  loop hin hout
+  if l.isEmpty || l.startsWith "#" then
+    hout.putStrLn l
+    loop hin hout st
+  else
+    let (st', out) := dispatch st l
+    hout.putStrLn out
+    loop hin hout st'
 
 def main : IO Unit := do
   let hin ← IO.getStdin
   let hout ← IO.getStdout
-  loop hin hout
+  loop hin hout {}
   hout.flush
